@@ -16,6 +16,7 @@ code -> spec : for the quoting clause every string over a quoting-relevant alpha
 """
 from __future__ import annotations
 
+import ast
 import contextlib
 import io
 import itertools
@@ -30,6 +31,9 @@ from ..core import Ctx, MachineryError, tla
 
 FILES = {"toml": ("pyproject.toml", "tool.pydoctor"), "cfg": ("setup.cfg", "tool:pydoctor"), "ini": ("pydoctor.ini", "pydoctor")}
 ADV_TEXT = "x 'y' \"z\" #=;[1]\\"           # space, both quotes, comment signs, delimiter, brackets, trailing backslash
+
+
+FALSY = {0: "0", 3: "0.0", 4: ""}            # texts a TOML file can hold as bare 0 / 0.0, and the empty string
 
 
 # classes the class-valued options can name (importable: the harness package is already in sys.modules)
@@ -74,7 +78,7 @@ def option_table() -> List[Dict[str, Any]]:
         abbr = longs[0][:-1]
         unambiguous = len(abbr) > 3 and [s for s in all_strings if s.startswith(abbr)] == [longs[0]]
         out.append({"key": longs[0][2:], "kind": kind, "vk": vk, "short": bool(shorts), "abbrev": unambiguous,
-                    "destkey": a.dest not in all_keys,
+                    "destkey": a.dest not in all_keys, "extra": set(),
                     "_": {"dest": a.dest, "long": longs[0], "short": shorts[0] if shorts else None, "abbr": abbr,
                           "choices": list(a.choices) if a.choices else None, "default": a.default,
                           "store_false": isinstance(a, argparse._StoreFalseAction)}})
@@ -84,6 +88,8 @@ def option_table() -> List[Dict[str, Any]]:
 def concrete(o: Dict[str, Any], slot: int) -> str:
     """Slot 1 = representative, slot 2 = adversarial value of option o, as text."""
     d, x = o["_"]["dest"], o["_"]
+    if slot in FALSY:
+        return FALSY[slot]
     if x["choices"]:
         non_default = [c for c in x["choices"] if c != x["default"]] or x["choices"]
         return non_default[0] if slot == 1 else non_default[-1]
@@ -234,10 +240,11 @@ def abstract(run: Runner, o: Dict[str, Any], options: Any) -> Any:
         return [1] if val == on else [0]
     if kind == "count":
         return [options.verbosity + options.quietness] if x["dest"] == "verbosity" else [val]
-    single = {s: getattr(run.expected(cli_args(o, [s], "eq")), attr_of(o)) for s in (1, 2)}
+    slots = [1, 2] + (sorted(o.get("extra", ())) if kind == "store" else [])
+    single = {s: getattr(run.expected(cli_args(o, [s], "eq")), attr_of(o)) for s in slots}
     if kind == "store":
         default = getattr(run.expected([]), attr_of(o))
-        hits = [[s] for s in (1, 2) if val == single[s]] + ([[]] if val == default else [])
+        hits = [[s] for s in slots if val == single[s]] + ([[]] if val == default else [])
         return hits[0] if len(hits) == 1 else None     # two slots with the same concrete value: not mappable
     out = []
     for item in (val or []):
@@ -337,6 +344,13 @@ def kf_toml_leading_escaped_quote(w: Dict[str, Any]) -> bool:
                                   (t.startswith('""') and w.get("observed") == t[2:-2]))
 
 
+def kf_empty_triple_quoted(w: Dict[str, Any]) -> bool:
+    """Python twin of ConfigQuote.tla KF_EmptyTripleQuoted: '''''' / \"\"\"\"\"\" (the empty text) is not recognised as
+    quoted and comes back as the six quote characters."""
+    return w.get("kind") == "quote" and w.get("q") in TRIPLE and w.get("text") == "" and not w.get("err") \
+        and w.get("unquote_str") == w.get("written") and w.get("observed") in (w.get("written"), "")
+
+
 # -------------------------------------------------------------------------------- part 1: the merge
 MERGE_CFG = """SPECIFICATION Spec
 CONSTANTS Options <- MC_Options
@@ -349,6 +363,11 @@ INVARIANT ImplIsRef
 
 def part_merge(ctx: Ctx, rng: random.Random) -> int:
     opts = option_table()
+    run = Runner(ctx)
+    for o in opts:                      # which single-valued options accept the falsy texts "0", "0.0", "" at all
+        if o["kind"] == "store":
+            o["extra"] = {slot for slot in ((0, 3, 4) if o["vk"] == "str" else (0,))
+                          if not run.run(cli_args(o, [slot], "eq"), {})["exit"]}
     sdir = ctx.spec_dir()
     lit = tla([{k: v for k, v in o.items() if k != "_"} for o in opts])
     (sdir / "MC_Config.tla").write_text(
@@ -368,7 +387,6 @@ def part_merge(ctx: Ctx, rng: random.Random) -> int:
     if len(recs) != r.distinct or not recs:
         raise MachineryError(f"TLC printed {len(recs)} scenarios for {r.distinct} states")
     by_key = {o["key"]: o for o in opts}
-    run = Runner(ctx)
     seen_opts, kinds = set(), {}
     spec_kf = 0
     for n, rec in enumerate(recs):
@@ -416,6 +434,7 @@ def part_merge(ctx: Ctx, rng: random.Random) -> int:
 # ----------------------------------------------------------------------------- part 2: quoting identity
 QALPHA = ["a", " ", "'", '"', "\\", "#", "=", "[", "]", "\n"]
 QSTYLES = [("cfg", "single"), ("cfg", "double"), ("cfg", "plain"), ("ini", "single"), ("ini", "double"), ("ini", "plain"),
+           ("cfg", "tsingle"), ("cfg", "tdouble"), ("ini", "tsingle"), ("ini", "tdouble"),
            ("toml", "basic"), ("toml", "literal")]
 QUOTE_CFG = """SPECIFICATION Spec
 CONSTANTS MaxLen = {k}
@@ -427,7 +446,13 @@ INVARIANT Lossless
 """
 
 
+TRIPLE = {"tsingle": "'", "tdouble": '"'}
+
+
 def q_applicable(t: str, q: str) -> bool:
+    if q in TRIPLE:                                  # content verbatim between triple quotes
+        c = TRIPLE[q]
+        return "\\" not in t and "\n" not in t and not t.endswith(c) and c * 3 not in t
     if q == "literal":
         return "'" not in t and "\n" not in t
     if q == "plain":
@@ -437,7 +462,8 @@ def q_applicable(t: str, q: str) -> bool:
 
 def q_encode(t: str, q: str) -> str:
     return {"single": lambda: py_quote(t, "'"), "double": lambda: py_quote(t, '"'), "basic": lambda: py_quote(t, '"'),
-            "literal": lambda: "'" + t + "'", "plain": lambda: t}[q]()
+            "literal": lambda: "'" + t + "'", "plain": lambda: t,
+            "tsingle": lambda: "'''" + t + "'''", "tdouble": lambda: '"""' + t + '"""'}[q]()
 
 
 def chars(t: str) -> List[str]:
@@ -477,6 +503,7 @@ def read_back(run: Runner, parser: Any, fmt: str, written: str, e2e: bool) -> Tu
 def quote_table(ctx: Ctx, rng: random.Random, run: Runner, parser: Any, strings: Sequence[str], e2e_prob: float,
                 k: int, exhaustive: bool, tag: str) -> Tuple[List[Dict[str, Any]], int]:
     """Write / read back every (string, style), have TLC judge the table, report. Returns (rows, #end-to-end)."""
+    from pydoctor._configparser import unquote_str
     rows, meta = [], []
     e2e_n = 0
     for t in strings:
@@ -484,10 +511,21 @@ def quote_table(ctx: Ctx, rng: random.Random, run: Runner, parser: Any, strings:
             if not q_applicable(t, q):
                 continue
             w = q_encode(t, q)
+            u = t
+            if fmt != "toml" and q != "plain":           # a Python literal: CPython is the referee of the encoding
+                with warnings.catch_warnings():
+                    warnings.simplefilter("ignore")
+                    if ast.literal_eval(w) != t:
+                        raise MachineryError(f"ConfigQuote.tla's Encode({t!r}, {q}) = {w!r} does not mean that text in Python")
+                try:
+                    u = unquote_str(w)
+                except Exception as ex:
+                    u = f"<{type(ex).__name__}>"
             e2e = len(t) <= 1 or rng.random() < e2e_prob
             back, err, tv = read_back(run, parser, fmt, w, e2e)
             e2e_n += e2e
-            rows.append({"s": chars(t), "fmt": fmt, "q": q, "w": chars(w), "back": chars(back or ""), "err": err, "tv": tv})
+            rows.append({"s": chars(t), "fmt": fmt, "q": q, "w": chars(w), "back": chars(back or ""), "u": chars(u),
+                         "err": err, "tv": tv})
             meta.append((t, w, e2e))
     f = ctx.scratch / f"quote_table_{tag}.json"
     f.write_text(json.dumps({"rows": rows}))
@@ -510,6 +548,7 @@ def quote_table(ctx: Ctx, rng: random.Random, run: Runner, parser: Any, strings:
             back = "".join("\n" if c == "NL" else c for c in rep["back"])
             ctx.violation({"invariant": "QuotedTextReadBack", "kind": "quote", "fmt": rep["fmt"], "q": rep["q"],
                            "text": t, "written": w, "expected": t, "observed": back if not rep["err"] else None,
+                           "unquote_str": "".join("\n" if c == "NL" else c for c in rep["u"]),
                            "err": rep["err"], "toml_valid": rep["tv"], "end_to_end": e2e,
                            "key": f"quote:{rep['fmt']}:{rep['q']}:{t!r}"})
         elif sampled < 1 and len(t) >= 2:
@@ -559,6 +598,7 @@ def run(ctx: Ctx) -> int:
     ctx.register_matcher("unrecognised-cli-spelling", kf_unrecognised_cli_spelling)
     ctx.register_matcher("ini-file-read-as-toml", kf_ini_read_as_toml)
     ctx.register_matcher("toml-leading-escaped-quote", kf_toml_leading_escaped_quote)
+    ctx.register_matcher("empty-triple-quoted", kf_empty_triple_quoted)
     n1 = part_merge(ctx, rng)
     n2 = part_quote(ctx, rng)
     ctx.exhaustive = True
@@ -590,8 +630,10 @@ def replay(ctx: Ctx, path: str) -> int:
         bad = out["failed"] and {"failed": out["failed"], "observed": out["observed"]}
     elif w.get("kind") == "quote":
         from pydoctor.options import get_parser
+        from pydoctor._configparser import unquote_str
         back, err, _ = read_back(Runner(ctx), get_parser(), w["fmt"], w["written"], True)
-        bad = (err or back != w["expected"]) and {"read_back": back, "err": err}
+        u = unquote_str(w["written"]) if w["fmt"] != "toml" and w["q"] != "plain" else w["expected"]
+        bad = (err or back != w["expected"] or u != w["expected"]) and {"read_back": back, "unquote_str": u, "err": err}
     else:
         raise MachineryError("unknown witness kind")
     print("replay:", f"still violated: {bad}" if bad else "holds now")
